@@ -283,6 +283,9 @@ func aeval(fn *ssa.Function, args []AVal, opts AEvalOpts, depth int, steps *int)
 								env[x] = AVal{K: ANil}
 							}
 						}
+					} else if g, isG := x.X.(*ssa.Global); isG && isSentinelErrName(g.Name()) && types.Identical(x.Type(), types.Universe.Lookup("error").Type()) {
+						// io.ErrUnexpectedEOF, io.EOF, ErrNotFound …: package-level error sentinels are never nil
+						env[x] = AVal{K: ANonNil}
 					} else if p := apath(x.X); p != "" && opts.Load != nil {
 						if v, have := opts.Load(p); have {
 							env[x] = v
@@ -431,4 +434,8 @@ func GlobalInitInt(pkg *ssa.Package, name string) (int64, bool) {
 		}
 	}
 	return val, n == 1
+}
+
+func isSentinelErrName(n string) bool {
+	return strings.HasPrefix(n, "Err") || n == "EOF" || strings.HasPrefix(n, "err")
 }
